@@ -12,6 +12,11 @@
                                neighbours, `Closed`, `stripFrom` and these theorems carry the input character in front of the text
                                (`prev`) and the one behind it (`next`); what stands in front only matters for a text that itself
                                starts with a block comment (`c13_strip_prev`).
+  * `c13_comment_line_crlf`  — the same on a CRLF-terminated line (fix F73, `//[^\r\n]*\r?$`): the carriage return in front of
+                               the newline belongs to the line comment and disappears with it, the newline stays; the result
+                               is that of the same comment on an LF-terminated line (`c13_comment_line_crlf_is_lf`).  A line
+                               comment closed by one CR at the very end of the text disappears with that CR
+                               (`c13_comment_line_cr_end`).  A lone CR inside the text is still no line end (example below).
   * `c13_newlines_preserved` — for every text at all: the scanner preserves the line structure (line numbers in error
                                messages and the line-oriented parts of the parser see the same lines).
   * `c13_resolve_chain`      — `resolve` succeeds exactly on alias chains of at most 10 look-ups that end in a type, and
@@ -43,6 +48,31 @@ theorem c13_comment_block (p : Option Char) (a o body b : List Char) (h : Closed
 theorem c13_comment_line (p : Option Char) (a o body b : List Char) (h : Closed p a (some '/') o) (hb : ∀ c ∈ body, isEol c = false) :
     stripFrom p (a ++ ('/' :: '/' :: body ++ '\n' :: b)) = o ++ stripFrom (some '/') ('\n' :: b) :=
   comment_line p a o body b h hb
+
+/-- **A line comment on a CRLF-terminated line is replaced by nothing, together with its carriage return; the newline stays.**
+    On a text `a` that ends between lexical items (`Closed`, as in `c13_comment_line`), `// body` (no CR / LF in `body`) followed
+    by `\r\n` contributes nothing to the output: the scan continues at the `\n`, behind the input character `\r` (the last
+    character of the match; it matters to nothing, `c13_comment_line_crlf_is_lf`).  Fix F73 — before it, the `//` of such a line
+    was not recognised as a comment. -/
+theorem c13_comment_line_crlf (p : Option Char) (a o body b : List Char) (h : Closed p a (some '/') o)
+    (hb : ∀ c ∈ body, isEol c = false) :
+    stripFrom p (a ++ ('/' :: '/' :: body ++ '\r' :: '\n' :: b)) = o ++ stripFrom (some '\r') ('\n' :: b) :=
+  comment_line_crlf p a o body b h hb
+
+/-- **CRLF and LF line ends are alike for a line comment**: the stripped text is the same whether the line comment is closed by
+    `\r\n` or by `\n` — in both cases `o` followed by what the scanner makes of `\n` and the rest. -/
+theorem c13_comment_line_crlf_is_lf (p : Option Char) (a o body b : List Char) (h : Closed p a (some '/') o)
+    (hb : ∀ c ∈ body, isEol c = false) :
+    stripFrom p (a ++ ('/' :: '/' :: body ++ '\r' :: '\n' :: b)) = stripFrom p (a ++ ('/' :: '/' :: body ++ '\n' :: b)) := by
+  rw [comment_line_crlf p a o body b h hb, comment_line p a o body b h hb,
+    stripFrom_prev (some '\r') (some '/') ('\n' :: b) (by intro r e; cases e)]
+
+/-- **A line comment closed by one carriage return at the very end of the text disappears with it** (`\r?$` at the end of the
+    text). -/
+theorem c13_comment_line_cr_end (p : Option Char) (a o body : List Char) (h : Closed p a (some '/') o)
+    (hb : ∀ c ∈ body, isEol c = false) :
+    stripFrom p (a ++ ('/' :: '/' :: body ++ ['\r'])) = o :=
+  comment_line_cr_end p a o body h hb
 
 /-- the three outcomes of a block comment (`commentRepl`): its newlines; else one blank between two characters that are no white
     space; else nothing -/
@@ -114,6 +144,16 @@ theorem c13_builtin_aliases :
 
 -- non-vacuity: a closed text with a string, both comment kinds and a division; a chain of two aliases
 example : Closed none "x/*c*/y /* x\n */ \"//\" b / 2 // c\n".toList none "x y \n \"//\" b / 2 \n".toList := sample_closed
+-- F73: a `//` comment on a CRLF-terminated line goes away with its CR, the LF stays; a lone CR is still no line end (the text
+-- is unchanged); a CR at the very end of the text closes the comment; an instance of `c13_comment_line_crlf`
+example : strip "uint8 x; // c\r\n uint8 y;".toList = "uint8 x; \n uint8 y;".toList := by decide +kernel
+example : strip "a // c\rb".toList = "a // c\rb".toList := by decide +kernel
+example : strip "a // c\r".toList = "a ".toList ∧ strip "a // c\r\r\n".toList = "a // c\r\r\n".toList := by decide +kernel
+example : stripFrom none ("x; ".toList ++ ('/' :: '/' :: " c".toList ++ '\r' :: '\n' :: "y;".toList))
+    = "x; ".toList ++ stripFrom (some '\r') ('\n' :: "y;".toList) :=
+  c13_comment_line_crlf none _ _ _ _
+    (.char _ _ 'x' _ _ (by decide) (by decide) (by decide) (.char _ _ ';' _ _ (by decide) (by decide) (by decide)
+      (.char _ _ ' ' _ _ (by decide) (by decide) (by decide) (.nil _ _)))) (by decide)
 example : Chain [("A", .alias "B"), ("B", .alias "C"), ("C", .type 7)] "A" 7 3 :=
   .alias "A" "B" 7 2 rfl (.alias "B" "C" 7 1 rfl (.type "C" 7 rfl))
 
